@@ -11,6 +11,7 @@ for seed in $SEEDS; do
     t1=$(date +%s)
     echo "seed=$seed $id $TIER exit=$rc wall=$((t1-t0))s $(echo "$out" | grep -a -c '^VIOLATION') violations; $(echo "$out" | grep -a "^$id $TIER" | head -1)"
     [ $rc -ne 0 ] && BAD=1 && echo "$out" | grep -a -A2 '^VIOLATION' | head -12
+    [ $rc -ne 0 ] && [ $rc -ne 1 ] && echo "$out" | tail -8 | cut -c1-300
   done
 done
 exit $BAD
